@@ -426,3 +426,38 @@ Qed.
 
 (** conversely the monitor is not vacuous: it rejects a table with a missing,
     a duplicated or a stale row (examples in Props/C12.v) *)
+
+Theorem rows_once_staged : forall g src recs,
+  wfb g src = true -> stagedb g src = true ->
+  NoDup (map (name_of recs) (instances g src)) ->
+  NoDup (map (hd []) (status_rows g src recs)) /\
+  Permutation (map (hd []) (status_rows g src recs)) (map (name_of recs) (instances g src)).
+Proof.
+  intros g src recs Hwf Hst. apply rows_once_names; [exact Hwf|apply staged_reach, Hst].
+Qed.
+
+(** the dynamic-table reading of a row (HOOK for the execution model): the row of
+    the [i]-th node in status order shows that node's state, latest job id and
+    restart count *)
+Theorem row_dyn_consistent : forall g src statics dyn i,
+  i < List.length (status_order g src) ->
+  let k := nth i (status_order g src) 0 in
+  k < List.length statics -> List.length statics = List.length dyn ->
+  let row := nth i (status_rows_dyn g src statics dyn) [] in
+  let st := nth k statics (mkStatic [] [] []) in
+  let d := nth k dyn (mkDyn [] [] 0%N []) in
+  nth 0 row [] = sr_name st /\
+  nth 1 row [] = last (d_jobids d) (s "--") /\
+  nth 3 row [] = d_state d /\
+  nth 9 row [] = dec (d_restarts d) /\
+  nth 10 row [] = join [semicolon] (map (fun kv => fst kv ++ [colon] ++ snd kv) (sr_params st)).
+Proof.
+  intros g src statics dyn i Hi k Hk Hlen row st d.
+  subst row. unfold status_rows_dyn.
+  rewrite (row_content g src _ i Hi). fold k.
+  assert (E : rec_of (map mk_rec (combine statics dyn)) k = mk_rec (st, d)).
+  { unfold rec_of. rewrite nth_map_lt with (d' := (mkStatic [] [] [], mkDyn [] [] 0%N [])).
+    - rewrite combine_nth by exact Hlen. reflexivity.
+    - rewrite combine_length, <- Hlen, Nat.min_id. exact Hk. }
+  rewrite E. simpl. repeat split.
+Qed.
